@@ -568,6 +568,40 @@ func (g *storeGen) history(mode string, length int) {
 			g.doLook(n, "triples", nil, nil, nil, g.randLo())
 		}
 	}
+	if mode == "opts" {
+		g.densePages()
+	}
+}
+
+// densePages: every look-up over a graph in which every subject, predicate and object of a small pool meet — so that
+// each method has several results — read page by page (sizes 2 and 3, three offsets) and whole: the pages are the
+// consecutive blocks of the whole answer.
+func (g *storeGen) densePages() {
+	n := g.names[0]
+	g.doNew(n)
+	nodes := []*node.Node{mustNode("/u", "pa"), mustNode("/u", "pb"), mustNode("/u", "pc"), mustNode("/u", "pd")}
+	preds := []*predicate.Predicate{mustImm("pg"), mustTmp("pg", t0)}
+	var ids []int
+	for _, s := range nodes {
+		for _, p := range preds {
+			for _, o := range nodes[:2] {
+				t, _ := triple.New(s, p, triple.NewNodeObject(o))
+				ids = append(ids, g.define(t))
+			}
+		}
+	}
+	g.doMut(true, n, ids)
+	s, p, o := nodes[0], preds[0], triple.NewNodeObject(nodes[1])
+	for _, m := range allMethods {
+		for _, size := range []int{0, 2, 3} {
+			for off := 0; off < 3; off++ {
+				if size == 0 && off > 0 {
+					continue
+				}
+				g.doLook(n, m, s, p, o, &storage.LookupOptions{MaxElements: size, Offset: off})
+			}
+		}
+	}
 }
 
 // exhaustive: every subset of a 4-triple universe (reached by adds) x every single operation from it.
